@@ -215,7 +215,11 @@ pub fn check(prog: &Prog, kind: Kind, plan: &Plan, refrun: &RefRun, refnp: &RefR
                 if *missing_in_group.get(&e.tag).unwrap_or(&false) {
                     out.push(v("branch_order", evk, format!("event {}#{} ran although an earlier event of the same branch and step did not", e.ev, e.occ)));
                 }
-                if oe.dg != e.dg {
+                if oe.dg != e.dg && nested_async_multi {
+                    // several branches of a nested async try macro fail in one step: which failure it returns (and so
+                    // every digest downstream of it) legitimately depends on the completion order
+                    sum.ambiguous = true;
+                } else if oe.dg != e.dg {
                     let lineage = first_of_segment && e.tag.last().map(|t| t.step > 0 && t.branch != CALLER).unwrap_or(false);
                     let is_snap = prog.ev(e.ev).map(|m| m.snap).unwrap_or(false);
                     let g = if is_snap {
